@@ -1210,8 +1210,9 @@ def selftest(ctx, recs, schedules):
     bad["totlo"], bad["tothi"] = bad["totlo"] + 1, bad["tothi"] + 1
     out["corrupted_error_total_caught"] = caught(lambda sh: run_case(sh, bad, idx, ("serial",), schedules))
     for fam in ("mom", "trn"):
+        # (mom: printed with at least 3 decimals -- the precision cycles with the index -- so that a lost file shows)
         idx, rec = next((i, r) for i, r in enumerate(recs[fam]) if len(r["data"]) >= 3 and
-                        (fam != "mom" or (not r["excl"] and len({repr(x) for x in r["data"]}) > 1)))
+                        (fam != "mom" or (not r["excl"] and len({repr(x) for x in r["data"]}) > 1 and i % 3 != 1)))
 
         def lost_task(sh, fam=fam, idx=idx, rec=rec):
             base = run_case(sh, rec, idx, ("serial",), schedules)
